@@ -82,9 +82,13 @@ OUT_PRE = [
     ("repeated_argument", ["and", ["q", "?x", "?x"]]),
     ("repeated_argument_neg", ["and", ["not", ["q", "?y", "?y"]], ["p", "?x"]]),
     ("repeated_argument_fluent", ["and", [">", ["h", "?x", "?x"], "0"]]),
+    ("repeated_constant", ["and", ["q", "k", "k"], ["p", "?x"]]),
+    ("repeated_constant_neg", ["and", ["not", ["q", "k", "k"]]]),
+    ("repeated_constant_fluent", ["and", [">", ["h", "k", "k"], "0"]]),
     ("forall_single_literal_body", ["and", ["forall", ["?z", "-", "t1"], ["p", "?z"]]]),
     ("forall_two_vars", ["and", ["forall", ["?z", "?w", "-", "t1"], ["and", ["q", "?z", "?w"]]]]),
     ("forall_nested_or", ["and", ["forall", ["?z", "-", "t1"], ["and", ["or", ["p", "?z"], ["q", "?x", "?z"]]]]]),
+    ("forall_in_forall_using_outer_variable", ["and", ["forall", ["?z", "-", "t1"], ["or", ["p", "?z"], ["forall", ["?w", "-", "t3"], ["and", ["q", "?w", "?z"]]]]]]),
     ("equality_with_constant", ["and", ["=", "?x", "k"]]),
     ("wrong_arity_atom", ["and", ["p", "?x", "?y"]]),
     ("unknown_parameter", ["and", ["p", "?w"]]),
@@ -102,6 +106,8 @@ OUT_EFF = [
     ("undeclared_predicate_delete", ["and", ["not", ["zz", "?x"]]]),
     ("repeated_argument_effect", ["and", ["q", "?x", "?x"]]),
     ("repeated_argument_delete", ["and", ["not", ["q", "?y", "?y"]]]),
+    ("repeated_constant_effect", ["and", ["q", "k", "k"]]),
+    ("repeated_constant_delete_in_when", ["and", ["when", ["q", "k", "k"], ["not", ["q", "k", "k"]]]]),
     ("nary_plus_effect", ["and", ["increase", ["f", "?x"], ["+", ["g"], "1", "2"]]]),
     ("forall_without_when", ["and", ["forall", ["?z", "-", "t1"], ["not", ["p", "?z"]]]]),
     ("forall_and_body", ["and", ["forall", ["?z", "-", "t1"], ["and", ["not", ["p", "?z"]], ["r"]]]]),
